@@ -321,6 +321,7 @@ type buildOpts struct {
 	LoadOnly    bool
 	GC          bool
 	SecondRun   bool     // call Run twice on the same Project (as the REPL does)
+	Keep        *Project // REPL: run again on this loaded Project without reloading
 	Reuse       *Project // watch mode: Reload this Project instead of loading afresh
 	DryThenNil  int      // 1: dry run then Run(label, nil) on the same Project; 2: with a Reload in between (as Watch does)
 }
@@ -335,7 +336,9 @@ func (w *world) process(name string, pc procCfg, bo buildOpts, stepHook func(ste
 	s.Run(func() {
 		var proj *Project
 		var err error
-		if bo.Reuse != nil {
+		if bo.Keep != nil {
+			proj = bo.Keep
+		} else if bo.Reuse != nil {
 			proj = bo.Reuse
 			err = proj.Reload()
 		} else {
